@@ -93,6 +93,16 @@ pub fn run(tier: &str) -> Result<Report, String> {
         parts.push(json!({"part": "unusual names", "network": b.name, "aeon": b.aeon, "formulae": fs.len()}));
         sem::sweep(&mut rep, &ctx, &fs, ck);
     }
+    // 1c. deep quantifier nests (up to 10 nested quantifiers on the 1-variable networks, 6 on con2) on graphs
+    //     with as many spare variable sets
+    for (name, max) in [("neg1", 10usize), ("imp1", if quick { 8 } else { 10 }), ("con2", if quick { 5 } else { 6 })] {
+        let sp = crate::nets::core_family().into_iter().find(|(n, _)| *n == name).unwrap().1;
+        let b = std::sync::Arc::new(bind(name, &sp, max as u16)?);
+        let ctx = NetCtx::new(b.clone(), Labels::default(), "none");
+        let fs = crate::formulas::deep_nests(&ctx.user, max);
+        parts.push(json!({"part": "deep nests", "network": name, "max_depth": max, "formulae": fs.len()}));
+        sem::sweep(&mut rep, &ctx, &fs, ck);
+    }
     // 1b. the multi-formula entry points: every ordered pair of the plain pool as a batch, each
     //     position compared with the oracle (the batch variants are entry points as well)
     {
@@ -183,6 +193,6 @@ pub fn run(tier: &str) -> Result<Report, String> {
     }
     parts.push(json!({"part": "operator slices", "nodes_exactly": m_slice, "slices": if quick { sl.len().div_ceil(7) } else { sl.len() }, "slice_names": sl.iter().map(|s| s.0.clone()).collect::<Vec<_>>(), "formulae": slice_total, "networks": slice_nets}));
     rep.set("parts", json!(parts));
-    rep.rule = "(1) all closed formulae with at most max_nodes nodes over the plain operator set, all closed formulae with at most max_nodes-1 nodes over all nine binary operators that use EW or AW, and the template families (benchmark formulae, two/three-variable quantifier nests with jumps, duplicated sub-formulae with swapped variable roles, one-free-variable sub-formulae with inner quantifiers duplicated at equal and different quantifier depths in both orders) on every core network through model_check_formula, _dirty, model_check_tree, _tree_dirty; (1a) all closed formulae with <= 3 (4) nodes over all operators + templates on four networks whose variable names are unusual as data (Ca_extra_cell / b_extra_1, x / xx, a / ab, EF1 / TRUE); (1b) every ordered pair of a pool of closed formulae as a two-element batch through model_check_multiple_formulae(_dirty), each position against the oracle; (2) all closed formulae with <= 3 (every 25th network: 4) nodes on every network of the de-duplicated family of ALL 2-variable networks of the grammar; (3) all closed formulae with exactly m nodes in every operator slice (each pair of operator groups x each quantifier, jump included). Every result is compared on every state x valid colour with the explicit-state oracle; distinct_nontrivial = number of distinct (network, verdict table) pairs that are neither empty nor full".into();
+    rep.rule = "(1) all closed formulae with at most max_nodes nodes over the plain operator set, all closed formulae with at most max_nodes-1 nodes over all nine binary operators that use EW or AW, and the template families (benchmark formulae, two/three-variable quantifier nests with jumps, duplicated sub-formulae with swapped variable roles, one-free-variable sub-formulae with inner quantifiers duplicated at equal and different quantifier depths in both orders) on every core network through model_check_formula, _dirty, model_check_tree, _tree_dirty; (1a) all closed formulae with <= 3 (4) nodes over all operators + templates on four networks whose variable names are unusual as data (Ca_extra_cell / b_extra_1, x / xx, a / ab, EF1 / TRUE); (1c) deterministic deep quantifier nests (4..10 quantifiers on one branch on 1-variable networks, up to 6 on con2; graphs with as many spare variable sets); (1b) every ordered pair of a pool of closed formulae as a two-element batch through model_check_multiple_formulae(_dirty), each position against the oracle; (2) all closed formulae with <= 3 (every 25th network: 4) nodes on every network of the de-duplicated family of ALL 2-variable networks of the grammar; (3) all closed formulae with exactly m nodes in every operator slice (each pair of operator groups x each quantifier, jump included). Every result is compared on every state x valid colour with the explicit-state oracle; distinct_nontrivial = number of distinct (network, verdict table) pairs that are neither empty nor full".into();
     Ok(rep)
 }
